@@ -113,11 +113,12 @@ Definition state_guards (w : N) (pre post : N) : verdict :=
       if negb (narrow w post <? max_value w - 1) then Refuse RStateTable else Pass
   end.
 
-(* lrlex parser.rs:494-509: rule number [len] gets the id StorageT::try_from(len) *)
+(* lrlex parser.rs:494-509: rule number [len] gets the id StorageT::try_from(len)
+   ([rev_append acc []] = [rev acc], linear) *)
 Fixpoint lex_go (w : N) (n : nat) (len : N) (acc : list N) : verdict * list N :=
   match n with
-  | O => (Pass, rev acc)
-  | S k => if max_value w <? len then (Refuse RLexRule, rev acc)
+  | O => (Pass, rev_append acc [])
+  | S k => if max_value w <? len then (Refuse RLexRule, rev_append acc [])
            else lex_go w k (len + 1) (narrow w len :: acc)
   end.
 Definition lex_build (w : N) (n : N) : verdict * list N := lex_go w (N.to_nat n) 0 [].
